@@ -4,6 +4,7 @@ import (
 	"github.com/KiraCore/sekai/x/custody/types"
 	"github.com/cosmos/cosmos-sdk/store/prefix"
 	sdk "github.com/cosmos/cosmos-sdk/types"
+	"strings"
 )
 
 func (k Keeper) GetCustodyInfoByAddress(ctx sdk.Context, address sdk.AccAddress) *types.CustodySettings {
@@ -195,7 +196,7 @@ func (k Keeper) GetCustodyPoolByAddress(ctx sdk.Context, address sdk.AccAddress)
 func (k Keeper) GetApproveCustody(ctx sdk.Context, msg *types.MsgApproveCustodyTransaction) string {
 	store := ctx.KVStore(k.storeKey)
 	key1 := append([]byte(types.PrefixKeyCustodyVote), msg.FromAddress...)
-	key2 := append(msg.TargetAddress, msg.Hash...)
+	key2 := append(msg.TargetAddress, strings.ToLower(msg.Hash)...)
 	key := append(key1, key2...)
 	bz := store.Get(key)
 
@@ -209,7 +210,7 @@ func (k Keeper) GetApproveCustody(ctx sdk.Context, msg *types.MsgApproveCustodyT
 func (k Keeper) GetDeclineCustody(ctx sdk.Context, msg *types.MsgDeclineCustodyTransaction) string {
 	store := ctx.KVStore(k.storeKey)
 	key1 := append([]byte(types.PrefixKeyCustodyVote), msg.FromAddress...)
-	key2 := append(msg.TargetAddress, msg.Hash...)
+	key2 := append(msg.TargetAddress, strings.ToLower(msg.Hash)...)
 	key := append(key1, key2...)
 	bz := store.Get(key)
 
@@ -223,7 +224,7 @@ func (k Keeper) GetDeclineCustody(ctx sdk.Context, msg *types.MsgDeclineCustodyT
 func (k Keeper) ApproveCustody(ctx sdk.Context, msg *types.MsgApproveCustodyTransaction) {
 	store := ctx.KVStore(k.storeKey)
 	key1 := append([]byte(types.PrefixKeyCustodyVote), msg.FromAddress...)
-	key2 := append(msg.TargetAddress, msg.Hash...)
+	key2 := append(msg.TargetAddress, strings.ToLower(msg.Hash)...)
 	key := append(key1, key2...)
 
 	store.Set(key, []byte("1"))
@@ -232,7 +233,7 @@ func (k Keeper) ApproveCustody(ctx sdk.Context, msg *types.MsgApproveCustodyTran
 func (k Keeper) DeclineCustody(ctx sdk.Context, msg *types.MsgDeclineCustodyTransaction) {
 	store := ctx.KVStore(k.storeKey)
 	key1 := append([]byte(types.PrefixKeyCustodyVote), msg.FromAddress...)
-	key2 := append(msg.TargetAddress, msg.Hash...)
+	key2 := append(msg.TargetAddress, strings.ToLower(msg.Hash)...)
 	key := append(key1, key2...)
 
 	store.Set(key, []byte("-1"))
